@@ -112,6 +112,29 @@ Theorem C06_nested_default_fill_example :
             approx (JObj [(u "x", JInt 1)]) (JObj [(u "x", JInt 1); (u "y", JInt 7)]) = true.
 Proof. exact nested_default_fill_example. Qed.
 
+(* (5) check_defaults (what finalisation runs for every entry) validates the type-level default AND every member
+   default -- of struct members and of the members of struct variants, whether or not the type also has a type-level
+   default -- and registers the shared generic default function of every Generic verdict.  (A seeded change folded the
+   two `match`es of check_defaults into one, so that a type-level default SHADOWED the member defaults.) *)
+Theorem C06_check_defaults_covers_members : forall re T f self,
+  check_defaults re T f self = ROk tt ->
+  (forall name v ps deny, get_det T self = Some (DStruct name (Some v) ps deny) -> exists k, validate_value re T f self v = ROk k) /\
+  (forall name v tag vs deny bes, get_det T self = Some (DEnum name (Some v) tag vs deny bes) -> exists k, validate_value re T f self v = ROk k) /\
+  (forall name v inner c, get_det T self = Some (DNewtype name (Some v) inner c) -> exists k, validate_value re T f self v = ROk k) /\
+  (forall name def ps deny p v, get_det T self = Some (DStruct name def ps deny) -> In p ps -> p_state p = PDefault v ->
+     exists k, validate_value re T f (p_ty p) v = ROk k /\
+               (forall g, k = KGeneric g -> In g (registered_generics re T f self))) /\
+  (forall name def tag vs deny bes var ps p v, get_det T self = Some (DEnum name def tag vs deny bes) ->
+     In var vs -> v_det var = VStruct ps -> In p ps -> p_state p = PDefault v ->
+     exists k, validate_value re T f (p_ty p) v = ROk k /\
+               (forall g, k = KGeneric g -> In g (registered_generics re T f self))).
+Proof. exact check_defaults_covers_members. Qed.
+
+Example C06_check_defaults_example :
+  check_defaults re0 (Tcd (JStr (u "three"))) 3 2 = RErr /\
+  check_defaults re0 (Tcd (JInt 3)) 3 2 = ROk tt /\ registered_generics re0 (Tcd (JInt 3)) 3 2 = [GU64].
+Proof. exact check_defaults_example. Qed.
+
 (* the former refutation witnesses, now regression examples of the repaired behaviour:
    String x 5, Vec<u8> x [300], S3(maxLength 3) x "toolong", IEnum[1,2] x 7, NonZeroU32 x 0 are
    rejected; (i64,) x [3] and W{k, #[flatten] extra} x {"k":1} render to typed expressions *)
